@@ -297,6 +297,41 @@ def ob_insert_twice(mode, form, timeout):
     return Ob("ihistory-insert-insert-%s-%s" % (mode, form), F(*names), body, pre, fmode="real", timeout=timeout, setup=_setup, funcs=FUNCS[:2], bounds="empty tier; first entry (label with surrounding whitespace, as %s), second entry anywhere; 2-step history" % form)
 
 
+def ob_insert_identical(timeout):
+    """inserting an entry that is equal to one already there (same times, same label; e.g. the
+    same insert applied twice) is a collision like any other; and labels are data - characters
+    that mean something to %-formatting or str.format change nothing, in particular not the
+    type of the exception"""
+    names = ["s0", "e0", "hi", "t0"]
+
+    def pre(s0, e0, hi, t0):
+        return ivs_wf_pre(0.0, hi, s0, e0) & within(0.0, hi, t0) & (hi <= 1024.0)
+
+    def body(s0, e0, hi, t0):
+        for lab in ("b", "100%", "%s", "{0}", "50% {x}"):
+            for mode in MODES:
+                tier = IntervalTier("t %d{}" if lab != "b" else "t", [Interval(s0, e0, lab)], 0.0, hi)
+                pt = PointTier("p %s" if lab != "b" else "p", [Point(t0, lab)], 0.0, hi)
+                for obj, new, want in ((tier, Interval(s0, e0, lab), [(s0, e0, lab)]), (pt, Point(t0, lab), [(t0, lab)])):
+                    before = snap_tier(obj)
+                    try:
+                        obj.insertEntry(new, mode, "silence")
+                    except errors.CollisionError:
+                        if mode != "error":
+                            return "CollisionError in %s mode" % mode
+                        if snap_tier(obj) != before:
+                            return "tier changed although insertEntry raised"
+                        continue
+                    if mode == "error":
+                        return "re-inserting an existing entry in error mode did not raise CollisionError"
+                    exp = want if mode == "replace" else [tuple(list(want[0][:-1]) + [lab + "-" + lab])]
+                    if tuples(obj.entries) != exp:
+                        return "re-inserting an existing entry in %s mode" % mode
+        return True
+
+    return Ob("insert-identical-entry", F(*names), body, pre, fmode="real", timeout=timeout, setup=_setup, funcs=FUNCS[:3], bounds="interval and point tier with one entry; the same entry inserted again in each mode; 5 labels incl. %-/{}-format characters")
+
+
 def ob_insert_then_delete(k, timeout):
     names = ["ns", "ne", "hi"] + _ts(k)
 
@@ -332,6 +367,7 @@ def obligations(tier):
         obs.append(ob_delete_interval(2, 120))
         obs.append(ob_delete_point(2, 120))
         obs.append(ob_insert_then_delete(1, 120))
+        obs.append(ob_insert_identical(200))
         obs.append(ob_insert_twice("replace", "interval", 120))
         obs.append(ob_insert_twice("merge", "tuple", 120))
     else:
@@ -347,6 +383,7 @@ def obligations(tier):
             obs.append(ob_delete_interval(k, 900))
             obs.append(ob_delete_point(k, 900))
             obs.append(ob_insert_then_delete(k, 900))
+        obs.append(ob_insert_identical(900))
         for m in MODES:
             for f in ("interval", "tuple"):
                 obs.append(ob_insert_twice(m, f, 600))
